@@ -1,7 +1,9 @@
 """C18 Query results independent of history. Spec: DataImpl.tla (heap, field cache, request cache, aliasing, in-place
-writes) refining Dataset.tla; TLC explores every request sequence up to length 3 over a 24-request menu and checks
-HistoryIndependent / EarlierUnaltered / CacheCoherent / CacheGrows; maximal behaviours are replayed on real Data objects
-(black box), and hook traces of those executions are validated against the model (white box, MODEL-DRIFT only)."""
+writes) refining Dataset.tla.  TLC (1) explores every request sequence up to length 3 over a 36-request menu and checks
+HistoryIndependent / EarlierUnaltered / CacheCoherent / CacheGrows; (2) under a canonical view that forgets object ids,
+visits EVERY cache state reachable by histories of any length over a 12-request core menu (datasets x 2^12 states).
+Maximal behaviours are replayed on real Data objects (black box); hook traces of those executions and of random request
+sequences are validated against the model (white box, MODEL-DRIFT only for internals)."""
 import random
 from harness import par, tlc, c18replay
 
@@ -92,15 +94,29 @@ def _random_sequences(ctx, family, n_datasets, per_dataset, maxlen):
     _validate_traces(ctx, recorded, "random_" + family)
 
 
+def _unbounded(ctx, cfg, expect_states):
+    """histories of ANY length: under VIEW CacheView (object ids are names) the state graph of DataImpl.tla is finite -- every subset
+    of the 12-request core menu is a cache content -- and TLC visits all of it: CacheCoherent in every state, CacheGrows /
+    HandedOutStable / LastIsCached on every transition.  The in-memory state queue (StateDeque) is required: TLC's disk queue cannot
+    serialise the lazily built functions of states that were fingerprinted through a view."""
+    res = tlc.run("MC_DataImpl", cfg, tag=ctx.pid + "_" + cfg, timeout_s=3000, require_emit=False, deque=True)
+    ctx.add_tlc(cfg + " (unbounded histories, 12-request core menu, canonical view)", res, {"MaxLen": "unbounded"})
+    if res.distinct != expect_states:
+        raise tlc.TlcFailure("%s: expected %d canonical cache states (datasets x 2^12), TLC found %d" % (cfg, expect_states, res.distinct))
+    ctx.extra.setdefault("unbounded_history_states", {})[cfg] = res.distinct
+
+
 def run(ctx):
-    ctx.rule = ("case = (dataset with inputs that disagree on missing cells, sequence of <= 3 requests from the 24-request menu); "
-                "non-trivial = the sequence contains at least two different requests")
+    ctx.rule = ("case = (dataset with inputs that disagree on missing cells, sequence of <= 3 requests from the 36-request menu) replayed into real "
+                "Data objects, + random sequences of up to 12 requests validated by TLC, + every cache state reachable by histories of any "
+                "length over a 12-request core menu (model level); non-trivial = the sequence contains at least two different requests")
     ctx.assumptions = ["observations of different inputs agree where both are present"]
     if ctx.tier == "quick":
         res = tlc.run("MC_DataImpl", "MC_DataImpl_C18QuickL2", tag=ctx.pid + "_model", timeout_s=900, require_emit=False)
         ctx.add_tlc("MC_DataImpl_C18QuickL2 (all sequences <= 2 over the 36-request menu, 16 datasets)", res, {"MaxLen": 2})
         res = tlc.run("MC_DataImpl", "MC_DataImpl_C18OneL3", tag=ctx.pid + "_model1", timeout_s=900, require_emit=False)
         ctx.add_tlc("MC_DataImpl_C18OneL3 (all sequences <= 3, 1 dataset)", res, {"MaxLen": 3})
+        _unbounded(ctx, "MC_DataImpl_C18OneUnbounded", 4096)
         _replay_cfg(ctx, "MC_DataImpl_C18EmitL2", limit=6000, record=1000)
         _replay_cfg(ctx, "MC_DataImpl_C18EmitL3", limit=3000, record=500)
         _replay_cfg(ctx, "MC_DataImpl_C18EmitMix", limit=4000, record=500)
@@ -110,6 +126,8 @@ def run(ctx):
         ctx.add_tlc("MC_DataImpl_C18QuickFixed (all sequences <= 3, 16 datasets)", res, {"MaxLen": 3})
         res = tlc.run("MC_DataImpl", "MC_DataImpl_C18MixFixed", tag=ctx.pid + "_model2", timeout_s=1500, require_emit=False)
         ctx.add_tlc("MC_DataImpl_C18MixFixed (obs-less input, climatology, -obsrange)", res, {"MaxLen": 3})
+        _unbounded(ctx, "MC_DataImpl_C18QuickUnbounded", 16 * 4096)
+        _unbounded(ctx, "MC_DataImpl_C18MixUnbounded", 32 * 4096)
         _replay_cfg(ctx, "MC_DataImpl_C18EmitL2")
         _replay_cfg(ctx, "MC_DataImpl_C18EmitL2", fmt="netcdf")
         _replay_cfg(ctx, "MC_DataImpl_C18EmitL3", record=4000)
